@@ -39,6 +39,9 @@ type c16Plan struct {
 	SendLocal bool     `json:"send_local,omitempty"` // hpai
 	// *-recv: the reader stays away from Inbound() this long while the frames arrive (a slow consumer)
 	ReaderPauseMs int `json:"reader_pause_ms,omitempty"`
+	// udp-recv / router-recv: all datagrams are sent in one go (no window of 4): more frames are pending than any
+	// small queue inside the receiver holds
+	Burst bool `json:"burst,omitempty"`
 }
 
 const limit = 5 * time.Second
@@ -252,6 +255,9 @@ func c16RunInner(p c16Plan) *common.Fail {
 		sent := 0
 		for sent < len(p.Frames) {
 			w := 4
+			if p.Burst {
+				w = len(p.Frames)
+			}
 			if sent+w > len(p.Frames) {
 				w = len(p.Frames) - sent
 			}
@@ -437,6 +443,9 @@ func c16RunInner(p c16Plan) *common.Fail {
 			sent := 0
 			for sent < len(p.Frames) {
 				w := 4
+				if p.Burst {
+					w = len(p.Frames)
+				}
 				if sent+w > len(p.Frames) {
 					w = len(p.Frames) - sent
 				}
@@ -830,6 +839,20 @@ func genPlanC16(rt *rapid.T) c16Plan {
 			p.ReaderPauseMs = rapid.SampledFrom([]int{5, 60, 250}).Draw(rt, "reader-pause")
 		}
 	case "udp-recv", "router-recv":
+		if rapid.IntRange(0, 3).Draw(rt, "burst") == 0 {
+			// 17..64 small distinct frames in one go while the reader is away for a moment
+			n := rapid.IntRange(17, 64).Draw(rt, "burst-frames")
+			for i := 0; i < n; i++ {
+				var f knxnet.ServicePackable = &knxnet.TunnelRes{Channel: uint8(i >> 8), SeqNumber: uint8(i), Status: knxnet.ErrCode(i % 3)}
+				if i%5 == 0 {
+					f = &knxnet.ConnStateRes{Channel: uint8(i), Status: knxnet.ErrCode(i % 2)}
+				}
+				p.Frames = append(p.Frames, hex.EncodeToString(knxnet.AllocAndPack(f)))
+			}
+			p.Burst = true
+			p.ReaderPauseMs = rapid.SampledFrom([]int{0, 20, 80}).Draw(rt, "burst-reader-pause")
+			return p
+		}
 		p.Frames = genFrames(rt, rapid.IntRange(1, 40).Draw(rt, "frames"), 1024)
 		if rapid.IntRange(0, 2).Draw(rt, "size-limit") == 0 {
 			p.Frames = atSizeLimit(rt, p.Frames, rapid.SampledFrom([]int{1024, 1024, 1023, 1000}).Draw(rt, "limit-size"))
